@@ -33,6 +33,9 @@ def clean_pass(rng, thorough, k):
     n0 = rng.choice([1, 1, 1, 2, 5, 100, rng.randint(1, max_n0)])
     gaps = rng.choice(["none", "none", "small", "mixed"])
     nums = timesgen.line_numbers(rng, n, n0, gaps)
+    # line numbers the format can hold (POD: signed 16 bit) and the sanitiser admits
+    nums = [x for x in nums if x <= min(32000, FMT[fmt]["maxlines"] - 1)]
+    n = len(nums)
     offs = timesgen.ideal_offsets(fmt, nums)
     year = rng.choice([1996, 1999, 2000, 2003, 2004, 2008, 2015]) if FMT[fmt]["family"] == "klm" else \
         rng.choice([1981, 1992, 1996, 1999, 2000, 2003, 2004])
